@@ -323,7 +323,7 @@ def split_run(cases, runner_impl, runner_model, shards=None):
     pass
 
 
-def run_both(bdir, cases, tag, shards=None, timeout=3600, model=True):
+def run_both(bdir, cases, tag, shards=None, timeout=3600, model=True, keys=None):
     """cases: list of case lines (str).  Runs impl and model on the same cases (sharded over the
     cores), returns dict: {n, compared_tokens, mismatches: [(case_line, first differing key, impl, model)],
     impl_traces, model_traces, crashes}"""
@@ -382,6 +382,12 @@ def run_both(bdir, cases, tag, shards=None, timeout=3600, model=True):
             b = tm.get(cid)
             if a is not None:
                 a = [x for x in a if not (x and x[0].startswith('@'))]   # impl-only observations (oracle input)
+            if keys is not None:
+                # compare only the observables the property's theorems depend on
+                if a is not None:
+                    a = [x for x in a if x and (x[0] in keys or x[0].endswith('-ERROR'))]
+                if b is not None:
+                    b = [x for x in b if x and (x[0] in keys or x[0].endswith('-ERROR'))]
             if a is None and b is None:
                 continue
             if not model:
@@ -413,7 +419,7 @@ def run_both(bdir, cases, tag, shards=None, timeout=3600, model=True):
     return result
 
 
-PREFIX = {'GRAPH': 'G', 'UPD': 'U', 'E2E': 'E', 'LAYOUT': 'L', 'WAFF': 'W', 'RNG': 'R', 'PARSE': 'P', 'RAFF': 'A'}
+PREFIX = {'GRAPH': 'G', 'UPD': 'U', 'E2E': 'E', 'LAYOUT': 'L', 'WAFF': 'W', 'RNG': 'R', 'PARSE': 'P', 'RAFF': 'A', 'RESIZE': 'Z'}
 
 
 def case_id(line):
